@@ -99,10 +99,11 @@ func (c CC) Has(name string) bool { return len(c.All(name)) > 0 }
 
 // Delta is the result of reading a delta-seconds directive.
 type Delta struct {
-	Present bool
-	Valid   bool          // exactly one occurrence with a 1*DIGIT argument
-	Value   time.Duration // saturated; only meaningful if Valid
-	Raw     string
+	Present  bool
+	Valid    bool          // the first occurrence has a 1*DIGIT argument
+	Value    time.Duration // saturated; only meaningful if Valid
+	Raw      string
+	Repeated bool // several occurrences with differing arguments: the first counts, or the response is stale (RFC 9111 §4.2.1)
 }
 
 // ParseDeltaSeconds reads 1*DIGIT with saturation (RFC 9111 §1.2.2).
@@ -144,7 +145,7 @@ func (c CC) Delta(name string) Delta {
 			}
 		}
 		if !same {
-			return d
+			d.Repeated = true
 		}
 	}
 	if !all[0].HasArg {
@@ -166,12 +167,8 @@ type NoCache struct {
 }
 
 func (c CC) NoCacheResp() (n NoCache) {
-	defer func() {
-		// both forms in one field: which one wins is debatable - no verdict
-		if n.Unqualified && len(n.Fields) > 0 {
-			n.Unqualified, n.Fields = false, nil
-		}
-	}()
+	// both forms in one field: the unqualified one covers the whole response
+	// and the field lists add up (RFC 9111 §5.2.2.4)
 	for _, d := range c.All("no-cache") {
 		n.Present = true
 		if !d.HasArg || strings.TrimSpace(d.Arg) == "" {
